@@ -163,22 +163,26 @@ def check(cx):
     if not fsort:
         cx.bad(r3, "sort:null-ties", "", "the sort comparator (compare_keys in runtime::ops::sort) was not found")
     else:
-        g = fsort[0]
-        tests = []       # (block, null-arm target, scrutinee root local)
-        for bi, adt, m, oth, src in enum_switches(p, g):
-            if adt == "types::DataType" and "Null" in m:
-                tests.append((bi, m["Null"], src[0]))
-        for c in g.calls():
-            if c.callee.endswith("::is_null") and c.term["to"] is not None:
-                tb = g.blocks[c.term["to"]]["term"]
-                if tb["t"] == "switch" and op_local(tb["o"]) == c.dst[0]:
-                    tests.append((c.term["to"], tb["otherwise"], op_local(c.args[0])))
-        first = [t for t in tests if all(g.dominates(t[0], u[0]) for u in tests)]
+        g0 = p.fns[fsort[0].id]
         good = False
-        if first:
-            t0 = first[0]
-            reg = dominated(g, t0[1])
-            good = any(u[0] in reg and u[2] != t0[2] for u in tests)
+        # the placement of NULL keys may sit in compare_keys itself, in a closure of its iterator chain or in a helper
+        # (`compare_nullable(a, b, nulls_first)`) - the helper is seen inlined into the member that calls it
+        for g in K.family(p, g0):
+            tests = []       # (block, null-arm target, scrutinee root local)
+            for bi, adt, m, oth, src in enum_switches(p, g):
+                if adt == "types::DataType" and "Null" in m:
+                    tests.append((bi, m["Null"], src[0]))
+            for c in g.calls():
+                if c.callee.endswith("::is_null") and c.term["to"] is not None:
+                    tb = g.blocks[c.term["to"]]["term"]
+                    if tb["t"] == "switch" and op_local(tb["o"]) == c.dst[0]:
+                        tests.append((c.term["to"], tb["otherwise"], op_local(c.args[0])))
+            first = [t for t in tests if all(g.dominates(t[0], u[0]) for u in tests)]
+            if first:
+                t0 = first[0]
+                reg = dominated(g, t0[1])
+                good = good or any(u[0] in reg and u[2] != t0[2] for u in tests)
+        g = g0
         cx.verdict(good, r3, "sort:null-ties", g.where(), "on a NULL key the other key is tested for NULL too (NULL, NULL ties)",
                    "the sort comparator places a NULL key without looking at the other key: two NULLs compare Greater (or Less) in both "
                    "directions, the comparator is not antisymmetric and never reaches the later sort keys for those rows")
